@@ -9,7 +9,7 @@ fault, stop on either side, success) through one chain of 1 or 2 real relays: th
 configuration as sent and as received at the far ends, the relays' status afterwards and
 pass-through probes in both directions are judged by RelayObs; a successful transfer through
 relays must reproduce the files exactly."""
-import os, json, glob
+import os, json, json, glob
 import vlib
 from checks import e2ecommon as E
 
@@ -81,6 +81,28 @@ def run(tier, v):
     bad, _, st = E.judge(files, "RelayObs", "RelayObs.cfg", v, details, "obs", keyfn=keyfn, timeout=3000)
     cov["traces_validated_against_impl"] = s["runs"] + m["cases"]
     cov["recovery_transfers"] = s["runs"]
+    # sequences that mix transfers through the tunnel with in-band ones through ONE relay instance (the scripted ends of
+    # the RelayTunnel extension): whatever came before, an action that reaches the server the in-band way has passed the
+    # relay's handshake -- no binary mode without a tunnel, protocol not above the relay's own
+    import glob
+    hx = vlib.build_harness(["x03"], name="x03.test")
+    outx = os.path.join(vlib.scratch(), "c14mix")
+    sx = vlib.run_driver(hx, "x03_relaytunnel", outx, {"runs": 96 if quick else 600, "shards": 16, "mode": "mix"}, timeout=1500)
+    cov["mixed_tunnel_inband_sessions"] = sx["runs"]
+    cov["mixed_tunnel_inband_rounds"] = sx.get("rounds", 0)
+    cov["mixed_sessions_stuck_not_judged"] = sx.get("stuck", 0)
+    nbad = 0
+    for fn in sorted(glob.glob(os.path.join(outx, "shard-*", "infos.json"))):
+        for info in json.load(open(fn)) or []:
+            notes = [n for n in (info.get("notes") or []) if n.startswith("c14:")]
+            if notes:
+                nbad += 1
+                kinds = [r.get("kind") for r in info["plan"]["rounds"]]
+                v.violation("mixed-%s" % notes[0].split(":")[1],
+                            "session %s (rounds %s): %s -- an action reached the server's terminal input without the relay's narrowing" % (info.get("id"), kinds, notes),
+                            {"plan": info["plan"], "notes": notes})
+    cov["mixed_sessions_not_narrowed"] = nbad
+    cov["traces_validated_against_impl"] += sx["runs"]
     cov["tv_states"] = st
     ev = vlib.read_ndjson(files[0])
     cov["samples"].append({"xfer_event": next(e for e in ev if e.get("e") == "xfer")})
